@@ -1,7 +1,7 @@
 SPECIFICATION SpecMC
 CONSTANTS
-  Starts = {"2x2","3x3","h3","v3","r3","n2"}
-  OpNames = {"InsertRow","AppendRow","DeleteRow","DeleteRows","InsertColumn","AppendColumn","DeleteColumn","DeleteColumns","SetCellText","SetCellFormattedText","AddCellFormattedText","AddCellParagraph","AddCellFormattedParagraph","ClearCellParagraphs","ClearCellContent","AddNestedTable","AddCellList","CellFmt","MergeCellsHorizontal","MergeCellsVertical","MergeCellsRange","UnmergeCells","ClearTable","CopyTable","ReadAll","RowFmt"}
+  Starts = {"2x2","3x3","r3","n2"}
+  OpNames = {"InsertRow","AppendRow","DeleteRow","DeleteRows","InsertColumn","AppendColumn","DeleteColumn","DeleteColumns","SetCellText","ClearCellParagraphs","AddCellParagraph","AddNestedTable","MergeCellsHorizontal","MergeCellsVertical","MergeCellsRange","UnmergeCells","ClearTable","CopyTable","ReadAll"}
   Depth = 0
   Slack = 1
   PairMode = "core"
